@@ -34,8 +34,8 @@ def bounds(tier):
     if tier == 'quick':
         return {'max_levels': 3, 'max_leaves': 4, 'schemes': ['B', 'D'],
                 'n_cells': [1, 5], 'deviation_bound': 1}
-    return {'max_levels': 4, 'max_leaves': 5, 'schemes': ['A', 'B', 'D'],
-            'n_cells': [1, 2, 3, 5], 'deviation_bound': 2}
+    return {'max_levels': 4, 'max_leaves': 5, 'schemes': ['B', 'D'],
+            'n_cells': [1, 3, 5], 'deviation_bound': 2}
 
 
 def cases(tier, seed):
@@ -46,7 +46,9 @@ def cases(tier, seed):
             for n_cells in b['n_cells']:
                 yield {'L': L, 'shape': shape, 'scheme': scheme,
                        'n_cells': n_cells, 'seed': seed,
-                       'd': b['deviation_bound']}
+                       # 4-level shapes: one deviation (the two-deviation
+                       # product over them alone is ~300k pipeline runs)
+                       'd': b['deviation_bound'] if L <= 3 else 1}
         if n >= 2 and L <= 2:
             # successive runs in one interpreter with inputs rewritten in
             # place (state carried between calls)
